@@ -41,6 +41,46 @@ func checkC12(w *World) {
 			}
 		}
 	}
+	// the shared implementation may be split: the function that receives the name-part selector is the root, the
+	// functions of the package it hands the node to belong to it
+	var nameParts []*ssa.Function
+	if nameFn != nil {
+		hasSelector := func(g *ssa.Function) bool {
+			for _, p := range g.Params {
+				if b, ok := p.Type().Underlying().(*types.Basic); ok && b.Info()&types.IsInteger != 0 {
+					return true
+				}
+			}
+			return false
+		}
+		for _, bn := range []string{"name", "local-name", "namespace-uri"} {
+			for _, g := range w.builtinClosure(bn) {
+				if !hasSelector(g) || g == nameFn {
+					continue
+				}
+				for h := range staticReach(g, func(x *ssa.Function) bool { return fnPkgKey(x) == "exec" }) {
+					if h == nameFn && !hasSelector(nameFn) {
+						nameFn = g // the selector-taking caller of the function with the node tests
+					}
+				}
+			}
+		}
+		for h := range staticReach(nameFn, func(x *ssa.Function) bool { return fnPkgKey(x) == "exec" }) {
+			if h == nameFn || fnPkgKey(h) != "exec" {
+				continue
+			}
+			n := 0
+			for _, grp := range nodeAsserts(h) {
+				n += len(grp)
+			}
+			if n >= 1 {
+				if okm, _ := w.isMinPosHelper(h, w.Roles()); !okm {
+					nameParts = append(nameParts, h)
+				}
+			}
+		}
+		sortFuncs(nameParts)
+	}
 	if nameFn == nil {
 		w.undecided(P, "R12.1", "name functions", 0, "no function with node-kind tests reachable from name/local-name/namespace-uri")
 	} else {
@@ -52,8 +92,21 @@ func checkC12(w *World) {
 				selector = p
 			}
 		}
-		for _, grp := range nodeAsserts(nameFn) {
-			for _, ta := range grp {
+		type partAssert struct {
+			fn *ssa.Function
+			ta *ssa.TypeAssert
+		}
+		var asserts []partAssert
+		for _, part := range append([]*ssa.Function{nameFn}, nameParts...) {
+			for _, grp := range nodeAsserts(part) {
+				for _, ta := range grp {
+					asserts = append(asserts, partAssert{part, ta})
+				}
+			}
+		}
+		for _, pa := range asserts {
+			{
+				ta, part := pa.ta, pa.fn
 				n, _ := nodeIface(ta.AssertedType)
 				kind := n.Obj().Name()
 				if kind == "Element" || kind == "Attribute" {
@@ -66,18 +119,27 @@ func checkC12(w *World) {
 				found[kind] = true
 				used := map[string]bool{}
 				selectorGuard := false
-				arms := typeSwitchArms(nameFn)
-				for _, b := range nameFn.Blocks {
+				arms := typeSwitchArms(part)
+				for _, b := range part.Blocks {
 					if !arms[b][ta] {
 						continue
 					}
-					for _, at := range guardAtoms(b) {
+					atoms := guardAtoms(b)
+					if part != nameFn {
+						// what is known where the root hands the node to this part
+						for _, site := range w.callersOf(part) {
+							if site.Parent() == nameFn {
+								atoms = append(atoms, guardAtoms(site.Block())...)
+							}
+						}
+					}
+					for _, at := range atoms {
 						if bo, ok := at.V.(*ssa.BinOp); ok && selector != nil && (bo.X == ssa.Value(selector) || bo.Y == ssa.Value(selector)) {
 							selectorGuard = true
 						}
 					}
 					// accessors used in the arm, also inside helpers of the package that the arm hands the node to
-					withCallees([]*ssa.BasicBlock{b}, "exec", nameFn, func(in ssa.Instruction) {
+					withCallees([]*ssa.BasicBlock{b}, "exec", part, func(in ssa.Instruction) {
 						if c, ok := in.(*ssa.Call); ok && c.Call.IsInvoke() {
 							used[c.Call.Method.Name()] = true
 						}
